@@ -1309,6 +1309,25 @@ func (x *Exec) specCall(env *SpecEnv, n *ECall) TV {
 		v := x.D.Fun("natOfSeq", SInt, s)
 		st.Assume(IntCmp(">=", v, IntConstI(0)))
 		return mkSpecInt(v)
+	case "fresh": // fresh(x): the object x refers to was allocated during this call (it did not exist at entry)
+		a := arg(0)
+		var ref *Term
+		switch p := a.V.(type) {
+		case *PtrV:
+			ref = p.Ref
+		case *IfaceV:
+			ref = p.Ref
+		case *SliceV:
+			ref = p.Base
+		case *Term:
+			if p.Sort.K == KInt {
+				ref = p
+			}
+		}
+		if ref == nil {
+			specFail("fresh() needs a pointer, map or slice")
+		}
+		return TV{IntCmp(">", ref, IntBin("*", IntConstI(refK), x.allocBase)), types.Typ[types.Bool]}
 	case "gf": // ghost field of an object: gf(ptr, name) : int
 		a := arg(0)
 		var ref *Term
